@@ -6,6 +6,7 @@ import JaxVerif.Spec.Calls
 import JaxVerif.Generated.Storage
 import JaxVerif.Generated.Skeleton
 import JaxVerif.Lemmas.Flags
+import JaxVerif.Source.Trees
 
 namespace JV
 
@@ -54,5 +55,15 @@ theorem C12_facts_matter :
         (.check (.pytree (.arr "" { dtypes := .any, shape := { pre := [.sym (.var "q") false], var := none } }) (some "T"))
           (.tuple [.arr "D" { isInst := true, dtype := "f", shape := [3] }])) {}).1.tp ≠ none) := by
   decide
+
+/-- **the two `try / finally` blocks of `_check`, as written today**: the flatten-mode flag is released in a `finally` by the
+    outermost flattener only, the label cleared in a `finally` by the PyTree that set it — the translated code computes
+    the model's `pytreeInstancecheck` with both facts true, whatever the leaf check does. `C12_rest_invariant` is
+    therefore a statement about the code the source contains. -/
+theorem C12_source_flags (env : TEnv) (ac : Catch) (hf : FlattenKept env.leafCheck) (st : CState) :
+    runInstancecheck env Generated.instancecheckCode Generated.checkCode st =
+      some (if env.bare then (st, .T)
+            else pytreeInstancecheck (goodSkel ac) env.leafCheck env.leafAny env.S env.x st) :=
+  source_tree_instancecheck env ac hf st
 
 end JV
